@@ -339,6 +339,15 @@ func marshal(v any) string {
 	return string(bs)
 }
 
+// marshalBounded: serialising a value whose tree form is astronomically large (shared sub-values)
+// would never end; such values are compared by their bounded encoding only.
+func marshalBounded(v any, enc string) string {
+	if kernel.TooBig(enc) {
+		return "<not serialised: too big>"
+	}
+	return marshal(v)
+}
+
 const maxOut = 60
 
 // drainAll runs an iterator to completion (or the caps) recording each output at emission.
@@ -362,7 +371,7 @@ func drainAll(it gojq.Iter, ctx *simctx.Ctx) (outs []out, vals []any, panicked s
 		if kernel.Cyclic(e) {
 			panic("the emitted value contains itself (a JSON value is a tree): " + kernel.Short(e))
 		}
-		outs = append(outs, out{enc: e, marshal: marshal(v)})
+		outs = append(outs, out{enc: e, marshal: marshalBounded(v, e)})
 		vals = append(vals, v)
 	}
 	return
@@ -465,10 +474,11 @@ func execute(d *Data) (*kernel.Violation, *stats) {
 			}
 		}
 		for j, e := range em {
-			if fp := kernel.Enc(e.val); fp != e.fp {
+			fp := kernel.Enc(e.val)
+			if fp != e.fp {
 				return viol(d, "emitted-modified", "%s: value #%d emitted earlier by run %d changed\nat emission: %s\nnow:         %s", when, j, e.by, kernel.Short(e.fp), kernel.Short(fp))
 			}
-			if m := marshal(e.val); m != e.marshal {
+			if m := marshalBounded(e.val, fp); m != e.marshal {
 				return viol(d, "emitted-modified", "%s: the serialisation of value #%d emitted earlier changed\nat emission: %s\nnow:         %s", when, j, kernel.Short(e.marshal), kernel.Short(m))
 			}
 		}
@@ -575,7 +585,7 @@ func execute(d *Data) (*kernel.Violation, *stats) {
 				if kernel.Cyclic(e) {
 					panic("the emitted value contains itself (a JSON value is a tree): " + kernel.Short(e))
 				}
-				got = out{enc: e, marshal: marshal(val)}
+				got = out{enc: e, marshal: marshalBounded(val, e)}
 			}
 			st.advances++
 			if r.pos >= len(r.iso) {
